@@ -89,7 +89,8 @@ CLAIMED = {
                 "fd/<decimal> for every descriptor >= 0 (0 included); the only possibly-following open is the verified one; the "
                 "descriptor table is balanced. Runtime: 9 handle kinds x rename/replace/unlink histories x flag sets x descriptor "
                 "numbers {0,1,2,3,64,1023} x both feature sets, Rust and C API, threads with a private descriptor table; oracle: "
-                "(dev,ino) identity, F_GETFL/FD_CLOEXEC, and the kernel's own raw reopen of /proc/self/fd/N.",
+                "(dev,ino) identity, F_GETFL/FD_CLOEXEC, and the kernel's own raw reopen of /proc/self/fd/N; 'a NEW open file description': handles "
+                "made from ordinary descriptors reopened with the flags they have and with others, offsets and status flags must not be shared.",
         "note": COMMON_NOTE + "That /proc/<tid>/fd/N denotes the open file description itself is the kernel's contract: in the static "
                 "kernel model it is the definition of the follow-open (tied to recorded real answers of reopen's calls, T2'), under "
                 "rename/replace/unlink histories it is exercised by the runtime oracle. Over-mounted host /proc is exercised by C06's runs.",
@@ -100,7 +101,8 @@ CLAIMED = {
                 "operations (any number of threads, any interleaving, arbitrary generator output): ids lie in [INT_MIN, -4096] "
                 "(range read from the source by T0), a fresh id differs from every live id, a take returns exactly what was stored "
                 "and a second take returns nothing, refinement to a partial map with fresh keys; errno table. Runtime: 1..64 "
-                "threads fail through four C entry points and consume each other's ids; a serialised history is replayed on the model.",
+                "threads fail through four C entry points and consume each other's ids; a serialised history is replayed on the model; "
+                "2^18 errors outstanding at once; 2^22 store/take cycles per resolver with the id range checked (thorough: 2^21 and 2^25).",
         "note": "Trusted: Coq kernel (no axioms); std::sync::Mutex atomicity of the two table operations; T0 extractor (range, "
                 "errno table); that every failing C call goes through store_error is checked at run time only.",
         "technique": "Coq proof (invariant + refinement over all operation histories) + concurrent C-API stress + history replay on the model",
